@@ -194,6 +194,9 @@ def run_api(prop, tier, seed, profiles, builds, own_guards, crash_decisive=False
                 continue
             seen.add((sig, tpath))
             decisive = name in own_guards or (crash_decisive and name == CRASH)
+            # "Guard@re" in own_guards: the guard is decisive for this property only on calls of the re-allocation family
+            if not decisive and (name + "@re") in own_guards and ("realloc" in op or "recalloc" in op or "rezalloc" in op or "expand" in op):
+                decisive = True
             if decisive:
                 keep = os.path.join(vlib.keepdir(prop), os.path.basename(tpath))
                 shutil.copyfile(tpath, keep)
